@@ -64,6 +64,7 @@ fn opcode(op: &Op) -> u64 {
         Op::SendBurst(_) => 30,
         Op::Wakeup => 31,
         Op::StreamPushSelfWake(_) => 32,
+        Op::RegisterAgain(_) => 33,
     }
 }
 
@@ -547,6 +548,58 @@ pub fn exec_op(op: &Op, ctx: Ctx) {
         Op::Send(sel) => {
             let Some(uid) = w(|w| resolve_any(w, *sel, ctx, &|s| matches!(s.spec.kind, Kind::Chan { .. }) && !s.senders.is_empty())) else { return };
             send(uid);
+        }
+        Op::RegisterAgain(sel) => {
+            // only sources with an fd of their own in the poller (the kernel rejects the duplicate), enabled, and
+            // not the one whose callback is running (its Dispatcher is borrowed)
+            let running = match ctx {
+                Ctx::Cb(u) => Some(u),
+                _ => None,
+            };
+            let Some(uid) = w(|w| {
+                resolve(w, *sel, ctx, &|s| {
+                    s.st == St::Enabled
+                        && s.registered
+                        && !s.in_process
+                        && Some(s.uid) != running
+                        && !s.spec.lifecycle
+                        && s.disp.is_some()
+                        && matches!(s.spec.kind, Kind::Ping | Kind::Chan { .. } | Kind::Exec | Kind::Stream | Kind::Gen { .. })
+                        && s.fds.iter().all(|c| c.child == ChildSt::Kept)
+                })
+            }) else {
+                return;
+            };
+            let before = snapshot(&h);
+            let prev = w(|w| {
+                w.count("op_register_again");
+                w.tr(|| format!("register_dispatcher(#{}'s Dispatcher) again", uid));
+                std::mem::replace(&mut w.reg_ctx, RegCtx::Op(uid))
+            });
+            let r = match w(|w| match w.srcs[uid].disp.as_ref() {
+                Some(DispZ::N(d)) => Some(DispZ::N(d.clone())),
+                Some(DispZ::L(d)) => Some(DispZ::L(d.clone())),
+                None => None,
+            }) {
+                Some(DispZ::N(d)) => h.register_dispatcher(d),
+                Some(DispZ::L(d)) => h.register_dispatcher(d),
+                None => return,
+            };
+            let after = snapshot(&h);
+            w(|w| {
+                w.reg_ctx = prev;
+                match r {
+                    Err(_) => {
+                        w.count("register_again_rejected");
+                        super::build::check_as_if_not_made(w, &format!("rejected second registration of #{}", uid), &before, &after);
+                    }
+                    Ok(_) => {
+                        // the same fd twice in one epoll set cannot be: the first registration was not there
+                        w.alarm("C16.exact", "enabled-source-not-registered", format!("a second registration of enabled source #{} was accepted by the poller", uid));
+                        w.srcs[uid].st = St::Limbo;
+                    }
+                }
+            });
         }
         Op::Wakeup => {
             if let Some(sig) = w(|w| {
